@@ -688,6 +688,15 @@ def replay(prop, path):
         d = simcorr.compare_sim(t, impl, res.get("s0"))
         print("REPLAY disagreements:", d[:5])
         return 1 if d else 0
+    if body.get("kind") == "relation" and body.get("relation") in ("simulator_vs_public_api", "bookkeeping_laws") and isinstance(body.get("input"), dict):
+        # the simulator relations are re-executed on the recorded simulation
+        t = body["input"]
+        for b in t["bandits"]:
+            b["lp"] = tuple(tuplify(v) if isinstance(v, list) else v for v in b["lp"])
+            if b.get("np") is not None: b["np"] = tuple(b["np"])
+        ok, info = (REL.run_c15 if body["relation"] == "simulator_vs_public_api" else REL.run_c16)(t)
+        print("REPLAY relation %s: %s %s" % (body["relation"], "holds" if ok else "FAILS", str(info)[:600]))
+        return 0 if ok else 1
     if body.get("kind") == "correspondence" and body.get("case"):
         c = fix_case(body["case"])
         tr, tape, _ = mwh.run_impl(c)
